@@ -550,12 +550,28 @@ pub fn generate(run_seed: u64, _index: u64) -> Case {
             }
         }
     }
-    let function = rng.chance(1, 4);
+    let mut function = rng.chance(1, 4);
+    if rng.chance(1, 3000) {
+        // rarely: a function of thousands of basic blocks (a chain of jumps to the next
+        // instruction), far more than any bound a translator might assume
+        kind = "long-chain".into();
+        function = true;
+        bytes.clear();
+        let n = *rng.pick(&[300u64, 1500, 4500, 9000]);
+        for _ in 0..n {
+            let at = address + bytes.len() as u64;
+            let len = asm::slot_len(arch, &Slot::Jump { target: 0, short: true, delay: None }) as u64;
+            bytes.extend(asm::encode(arch, &Slot::Jump { target: 0, short: true, delay: None }, at, at + len));
+        }
+        bytes.extend(asm::encode(arch, &Slot::Term { kind: 0, a: 0, delay: None }, address + bytes.len() as u64, 0));
+    }
     let mut holes = Vec::new();
     let mut faults = SeamFaults::default();
     let mut window_cap = None;
     let mut manual_edges = Vec::new();
-    if function {
+    if function && kind == "long-chain" {
+        // plain image, no seam faults: the size is the point
+    } else if function {
         // a longer image so that several windows are read
         if rng.chance(1, 2) {
             for _ in 0..rng.range(4, 30) {
@@ -665,24 +681,37 @@ pub fn minimise(case: &Case, class: &str, signature: &str) -> Case {
         if same(&cand) {
             best = cand;
         }
-        loop {
-            let b = asm::unhex(&best.bytes);
-            if b.len() <= unit {
-                break;
-            }
+        // shortest failing prefix by bisection (a long image would make unit-by-unit
+        // truncation take hours)
+        let full = asm::unhex(&best.bytes);
+        let (mut lo, mut hi) = (0usize, full.len() / unit);
+        while hi - lo > 1 {
+            let mid = (lo + hi) / 2;
             let mut cand = best.clone();
-            cand.bytes = asm::hex(&b[..b.len() - unit]);
+            cand.bytes = asm::hex(&full[..mid * unit]);
+            if same(&cand) {
+                hi = mid;
+            } else {
+                lo = mid;
+            }
+        }
+        if hi * unit < full.len() {
+            let mut cand = best.clone();
+            cand.bytes = asm::hex(&full[..hi * unit]);
             if same(&cand) {
                 best = cand;
-            } else {
-                break;
             }
         }
     }
-    // zero what can be zeroed
+    // zero what can be zeroed (bounded effort)
     let mut b = asm::unhex(&best.bytes);
+    let mut budget = 200;
     for i in 0..b.len() {
+        if budget == 0 {
+            break;
+        }
         if b[i] != 0 {
+            budget -= 1;
             let old = b[i];
             b[i] = 0;
             let mut cand = best.clone();
